@@ -199,6 +199,11 @@ func (c *checker) replayOnce(path string) (*ReplayResult, int, string) {
 func (c *checker) replayFile(path string) int {
 	_ = os.MkdirAll(c.outDir(), 0o755)
 	rr, code, se := c.replayOnce(path)
+	if t, err := kit.ReadTrace(path); err == nil && t.Cfg("attempts", 1) > 1 {
+		for a := int64(1); a < t.Cfg("attempts", 1) && (rr == nil || rr.Viol == nil); a++ {
+			rr, code, se = c.replayOnce(path)
+		}
+	}
 	if rr == nil {
 		if class, ok := crashClass(se); ok {
 			fmt.Printf("replay: the process crashed: class=%s\n%s\n", class, headTail(se, 1200))
@@ -668,17 +673,38 @@ func (c *checker) sequenceReplay(t *kit.Trace) (int, bool) {
 			break
 		}
 	}
+	attempts := int64(1)
 	if hit == nil {
-		return 0, false
+		// Not reproducible in one attempt: the code under test may contain
+		// nondeterminism the simulator does not control (goroutines it starts
+		// itself, timers). Re-draw the whole sequence a few more times; a
+		// violation that shows up in some attempts is still reported, and
+		// the replay file says how often to try.
+		from = 0
+		if w.FailN > 256 {
+			from = w.FailN - 256
+		}
+		for a := int64(2); a <= 6 && hit == nil; a++ {
+			hit = try(from)
+			attempts = a
+		}
+		if hit == nil {
+			return 0, false
+		}
+		attempts = 12
 	}
 	// tighten: drop leading runs one power of two at a time
-	for step := (w.FailN - from) / 2; step >= 1; step /= 2 {
+	for step := (w.FailN - from) / 2; step >= 1 && attempts == 1; step /= 2 {
 		if rr := try(from + step); rr != nil {
 			from += step
 			hit = rr
 		}
 	}
 	final := mk(from)
+	if attempts > 1 {
+		final.Config["attempts"] = attempts
+		hit.Viol.Detail = "(not reproduced by every execution: the code under test behaves nondeterministically beyond what the simulator controls - e.g. goroutines it starts itself; the replay tries up to " + fmt.Sprint(attempts) + " fresh processes)\n" + hit.Viol.Detail
+	}
 	final.Viol = hit.Viol
 	dir := filepath.Join(c.verif, "replays", c.id)
 	_ = os.MkdirAll(dir, 0o755)
@@ -686,8 +712,10 @@ func (c *checker) sequenceReplay(t *kit.Trace) (int, bool) {
 	if final.WriteFile(path) != nil {
 		return 0, false
 	}
-	if rr, _, _ := c.replayOnce(path); rr == nil || rr.Viol == nil || rr.Viol.Class != hit.Viol.Class {
-		return 0, false
+	if attempts == 1 {
+		if rr, _, _ := c.replayOnce(path); rr == nil || rr.Viol == nil || rr.Viol.Class != hit.Viol.Class {
+			return 0, false
+		}
 	}
 	class = hit.Viol.Class
 	fmt.Printf("violation: class=%s key=%s\n%s\n", hit.Viol.Class, hit.Viol.Key, hit.Viol.Detail)
